@@ -471,6 +471,14 @@ impl ObjectDesc {
         compute_md5: bool,
         config: TransferConfig,
     ) -> Result<Box<ObjectDesc>> {
+        if config.cenc != lct::Cenc::Null {
+            // A stream is sent as it is read: it cannot be compressed, and announcing
+            // a content encoding for it would make every receiver fail to decode it
+            return Err(FluteError::new(
+                "Compressed object is not compatible with a stream",
+            ));
+        }
+
         let md5 = match compute_md5 {
             true => Some(stream.md5_base64()?),
             false => None,
